@@ -75,6 +75,8 @@ SIG_FILL_META = 'C20/fill-without-no-store/meta-tile-flag-lost'
 SIG_FILL_WMTS_KML = 'C20/fill-without-no-store/wmts-kml-ignore-cacheable'
 SIG_PRE1970 = 'C20/304-unsound/ims-pre1970'
 SIG_WMSC_FILL_304 = 'C20/304-unsound/uncached-fill-tile/wmsc'
+SIG_HARDLINK_DATE = 'C20/304-unsound/modified-after-ims-date/hardlink'
+SIG_LINK_CREATE = 'C20/304-unsound/rewritten-by-this-request/linked-single-color'
 SIG_REWRITE_META = 'C20/304-unsound/rewritten-by-this-request/meta'
 SIG_REWRITE_SINGLE = 'C20/304-unsound/rewritten-by-this-request/single'
 
@@ -93,7 +95,14 @@ LAYERS = {
     'sm': ('sqlite', 'meta', 'wms'),
     'ss': ('sqlite', 'single', 'wms'),
     'ft': ('file', 'single', 'tile'),
+    # single-colour tiles stored as links to a shared single_color_tiles/<rrggbb>.png
+    'fl': ('file', 'single', 'wms'),
+    'fk': ('file', 'meta', 'wms'),
+    'fh': ('file', 'single', 'wms'),
+    # tile source fetched tile by tile for a whole 2x2 meta tile (bulk_meta_tiles)
+    'fb': ('file', 'bulk', 'tile'),
 }
+LINK_MODE = {'fl': 'symlink', 'fk': 'symlink', 'fh': 'hardlink'}
 LAYER_NAMES = sorted(LAYERS)
 SERVICES = ['tms', 'wmts-kvp', 'wmts-rest', 'kml', 'wmsc']
 FILL_RGB = (255, 0, 0)
@@ -291,6 +300,11 @@ def make_conf(base):
         if source == 'wms':
             c['meta_size'] = [2, 2] if path == 'meta' else [1, 1]
             c['meta_buffer'] = 0
+        if path == 'bulk':
+            c['meta_size'] = [2, 2]
+            c['bulk_meta_tiles'] = True
+        if name in LINK_MODE:
+            c['link_single_color_images'] = LINK_MODE[name]
         return c
     on_error = {500: {'response': '#ff0000', 'cache': False}}
     return {
@@ -400,9 +414,9 @@ class World(object):
             Image.new('RGB', (TILE_PX, TILE_PX), c).save(buf, 'PNG')
             by_len.setdefault(len(buf.getvalue()), []).append((c, buf.getvalue()))
         best = max(by_len.values(), key=len)
-        if len(best) < 3:
-            raise core.HarnessError('no three solid colours with equal PNG size')
-        return best[:3]
+        if len(best) < 4:
+            raise core.HarnessError('no four solid colours with equal PNG size')
+        return best[:4]
 
     def _render(self, info):
         from PIL import Image
@@ -451,6 +465,8 @@ class World(object):
         self.gen = dict(((n, i), 0) for n in LAYER_NAMES for i in range(len(TILES)))
         self.rec = {}            # (layer, tile, svc) -> dict(gen, etag, lm, body) of the last cache-served 200
         self.hist = {}           # (layer, tile) -> [(gen, etag, lm)] of every non-fill 200
+        self.content_changed = {}  # (layer, tile) -> whole second (harness clock) at/after which the stored bytes last changed
+        self.op_started = self.clock.now
         self.issued = {}         # (layer, tile) -> {etag: set of (stored timestamp, stored size) it was issued for}
         self.creating = {}       # (layer, tile, svc) -> [etag] of creating / refreshing 200 responses
         self.events = {}         # (layer, tile) -> 'c' (conditional request) / 'r' (observed rewrite) string
@@ -491,10 +507,12 @@ class World(object):
                     s = os.lstat(p)
                 except OSError:
                     continue
-                if self.mtimes.get(p) != (s.st_ino, s.st_mtime_ns):
+                if self.mtimes.get(s.st_ino) != s.st_mtime_ns:
+                    # new inode (file or symbolic link) written by this step: created "now" on the harness clock;
+                    # a new hard link to an old inode keeps that inode's mtime, as on a real file system
                     ns = int(round(self.clock.tick() * 1e9))
-                    os.utime(p, ns=(ns, ns))
-                    self.mtimes[p] = (s.st_ino, ns)
+                    os.utime(p, ns=(ns, ns), follow_symlinks=False)
+                    self.mtimes[s.st_ino] = ns
 
     def _observe(self, layer, ti):
         from mapproxy.cache.tile import Tile
@@ -508,7 +526,9 @@ class World(object):
                 s = os.lstat(p)
             except OSError:
                 return None
-            return (hashlib.sha1(data).hexdigest()[:16], len(data), s.st_mtime)
+            # size and timestamp of the directory entry itself (lstat), which is what FileCache reports for a tile:
+            # a symbolic link has its own, a hard link shares those of the single-colour file
+            return (hashlib.sha1(data).hexdigest()[:16], s.st_size, s.st_mtime)
         p = os.path.join(cache.cache_dir, '%d.mbtile' % coord[2])
         if not os.path.exists(p):
             return None
@@ -534,6 +554,9 @@ class World(object):
             o = self._observe(layer, ti)
             if o != self.obs[(layer, ti)]:
                 old = self.obs[(layer, ti)]
+                if o is not None and (old is None or old[0] != o[0]):
+                    # the served content changed during a step that began at op_started (harness clock)
+                    self.content_changed[(layer, ti)] = int(self.op_started)
                 self.obs[(layer, ti)] = o
                 self.gen[(layer, ti)] += 1
                 self.events[(layer, ti)] = self.events.get((layer, ti), '') + 'r'
@@ -550,6 +573,7 @@ class World(object):
     def apply(self, step):
         """-> list of Violations of this step"""
         self.steps.append(step)
+        self.op_started = self.clock.now
         op = step['op']
         if op == 'tz':
             if len(self.steps) != 1:
@@ -589,7 +613,9 @@ class World(object):
             tm.cache.store_tile(Tile(TILES[ti], source=ImageSource(io.BytesIO(data))))
         self.after_op(layer)
         o = self.obs[(layer, ti)]
-        if o is None or o[1] != len(data):
+        # (a linked single-colour tile shows the bytes of whoever stored that colour first)
+        linked = layer in LINK_MODE and content[0] == 'solid'
+        if o is None or (not linked and o[0] != hashlib.sha1(data).hexdigest()[:16]):
             raise core.HarnessError('direct rewrite of %s/%d not observed: %r' % (layer, ti, o))
         self.stats.classes['op:rewrite-direct-' + content[0]] += 1
 
@@ -692,6 +718,16 @@ class World(object):
             if fam == 'wmsc' and (inm is not None or ims is not None) and SIG_WMSC_FILL_304 in self.open_sigs:
                 st_.excluded['conditional-fill-tile-request-via-wmsc'] += 1
                 inm = ims = None
+        if LINK_MODE.get(layer) == 'hardlink' and ims is not None and SIG_HARDLINK_DATE in self.open_sigs:
+            changed = self.content_changed.get(key)
+            o = self.obs[key]
+            if needs_upstream or (o is not None and changed is not None and o[2] < changed):
+                # the tile is (or may become) a hard link to a single-colour file that is older than the tile's rewrite
+                st_.excluded['if-modified-since-for-hardlinked-tile-older-than-its-rewrite'] += 1
+                ims = None
+        if layer in LINK_MODE and inm == NONE_ETAG and needs_upstream and SIG_LINK_CREATE in self.open_sigs:
+            st_.excluded['if-none-match-of-None-None-etag-on-request-that-creates-a-linked-tile'] += 1
+            inm = None
         if ims_spec[0] == 'pre1970' and SIG_PRE1970 in self.open_sigs:
             st_.excluded['if-modified-since-before-1970'] += 1
             ims = None
@@ -715,6 +751,7 @@ class World(object):
         pre_rec_valid = pre_rec is not None and pre_rec['gen'] == pre_gen
         path, query = request_for(layer, TILES[ti], svc)
         self.up.clear()
+        self.op_started = self.clock.now
         r = wsgi_get(self.app, path, query, headers)
         calls = self.up.calls()
         self.after_op(layer)
@@ -728,7 +765,8 @@ class World(object):
             self.events[key] = self.events.get(key, '') + 'c'
 
         case = {'steps': list(self.steps), 'excluded_signatures': sorted(self.open_sigs)}
-        where = '%s tile %r of layer %s (%s cache, %s creation)' % (svc, TILES[ti], layer, LAYERS[layer][0], path_kind)
+        where = '%s tile %r of layer %s (%s cache, %s creation)' % (
+            svc, TILES[ti], layer, LAYERS[layer][0] + ('+' + LINK_MODE[layer] if layer in LINK_MODE else ''), path_kind)
         out = []
         if r.status not in (200, 304):
             raise core.HarnessError('unexpected status %d for %s: %r' % (r.status, where, r.body[:400]))
@@ -815,7 +853,7 @@ class World(object):
         elif LAYERS[layer][1] == 'meta':
             sig = SIG_FILL_META
         else:
-            sig = 'C20/fill-without-no-store/%s-single' % fam
+            sig = 'C20/fill-without-no-store/%s-%s' % (fam, LAYERS[layer][1])
         return [core.Violation(sig, 'upstream 500 mapped to an uncached fill image, but %s is answered with '
                                'Cache-Control %r, ETag %r (no no-store)' % (where, r.all('cache-control'), r.get('etag')),
                                case)]
@@ -878,6 +916,15 @@ class World(object):
                     '%r and is still honoured now that the tile is stored with %r' % (where, inm, other[0], now_meta),
                     case))
                 return out
+        changed = self.content_changed.get(key)
+        if not by_etag and ims_t is not None and changed is not None and ims_t < changed:
+            # "not modified since D", but the harness saw the stored bytes of this tile change at a time > D
+            out.append(core.Violation(
+                'C20/304-unsound/modified-after-ims-date' + ('/' + LINK_MODE[layer] if layer in LINK_MODE else ''),
+                '304 for %s on If-Modified-Since %r (no matching ETag presented), but the stored tile content changed at '
+                'or after %s; the cache now reports Last-Modified %r' % (where, ims, format_date(changed, 'imf'), lm_now),
+                case))
+            return out
         if by_etag or by_date:
             if not by_etag and inm is not None:
                 st_.notes['304-by-date-although-presented-etag-does-not-match (RFC 7232 precedence)'] += 1
@@ -899,6 +946,8 @@ class World(object):
                 old_ok = ims_t >= int(pre_obs[2])
             if old_ok:
                 sig = SIG_REWRITE_META if path_kind == 'meta' else SIG_REWRITE_SINGLE
+                if layer in LINK_MODE and r.get('etag') == NONE_ETAG and etag_matches(inm, NONE_ETAG):
+                    sig = SIG_LINK_CREATE
                 out.append(core.Violation(sig, msg + ' - the tile was (re)written while this request was served '
                                           '(store before: %r, now: %r)' % (pre_obs, post_obs), case))
                 return out
@@ -953,8 +1002,8 @@ IMS = st.one_of(
     st.tuples(st.just('now'), st.just(0), FMT),
     st.tuples(st.just('malformed'), st.integers(0, len(MALFORMED_DATES) - 1)),
     st.tuples(st.just('pre1970'), st.integers(0, len(PRE1970_DATES) - 1)))
-CONTENT = st.one_of(st.tuples(st.just('ground'), st.integers(0, 5)), st.tuples(st.just('solid'), st.integers(0, 2)),
-                    st.tuples(st.just('solid'), st.integers(0, 2)))
+CONTENT = st.one_of(st.tuples(st.just('ground'), st.integers(0, 5)), st.tuples(st.just('solid'), st.integers(0, 3)),
+                    st.tuples(st.just('solid'), st.integers(0, 3)))
 FOCUS = st.sampled_from(['focus', 'focus', 'focus', 'other'])
 
 _world = {}
